@@ -513,6 +513,16 @@ theorem relative_path_witness :
     "./relp" ∈ (genE pkgRelative).imports ∧ "./relp" ∉ (Spec.wrapper K.restricted 22 pkgRelative).imports ∧
     (genE pkgAbsolute).imports = ["x.y/relp", "reflect"] := by decide
 
+/-- F18-15: a package that exports nothing but untyped numeric / string constants: every binding is
+    a literal, yet the package is imported — an unused import, the file does not compile -/
+def pkgOnlyLiterals : Pkg :=
+  { pkgRelative with path := "x.y/relp", objs := [⟨"Max", true, .const (some (.int 1099511627776))⟩] }
+
+theorem only_literals_witness :
+    (genE pkgOnlyLiterals).imports = ["go/constant", "go/token", "x.y/relp", "reflect"] ∧
+    ((genE pkgOnlyLiterals).vals ++ (genE pkgOnlyLiterals).typs).any Spec.refersPkg = false ∧
+    (Spec.wrapper K.restricted 22 pkgOnlyLiterals).imports = ["go/constant", "go/token", "reflect"] := by decide
+
 /-- F18-14: `+` is legal in an import path and is not replaced: the wrapper type name is not an
     identifier and go/format rejects the file -/
 theorem import_path_plus_witness :
@@ -542,9 +552,13 @@ def inexactConst (o : Obj) : Bool :=
 
 /-- decidable domain on which genContent's output *is* the specified wrapper: the constraint-interface
     test is exact, no os/log collision, no exported untyped floating-point or complex constant (those
-    are covered by `float_const_exact_of_dyadic` / the witnesses), variadic signatures well formed -/
+    are covered by `float_const_exact_of_dyadic` / the witnesses), variadic signatures well formed, the
+    package is named by its import path, and some binding names the package unless nothing is bound -/
 def DomAll (p : Pkg) : Prop :=
-  p.path = p.importPath ∧ DomBind p ∧ DomName p ∧
+  p.path = p.importPath ∧
+  (((Spec.wrapper K.restricted K.defaultMinor p).vals ++ (Spec.wrapper K.restricted K.defaultMinor p).typs).any Spec.refersPkg =
+    !((Spec.wrapper K.restricted K.defaultMinor p).vals.isEmpty && (Spec.wrapper K.restricted K.defaultMinor p).typs.isEmpty)) ∧
+  DomBind p ∧ DomName p ∧
   (∀ o ∈ p.objs, inexactConst o = false) ∧
   (∀ o ∈ p.objs, ∀ m ∈ methodsOf o.kind, methodWf m = true)
 
@@ -641,7 +655,7 @@ theorem genY_eq_spec_partial (p : Pkg) (h : DomAll p) :
     (genE p).vals = s.vals ∧ (genE p).typs = s.typs ∧ (genE p).wraps = s.wraps ∧
     (genE p).wtypes = s.wtypes ∧ (genE p).imports = s.imports ∧
     (genE p).symKey = s.symKey ∧ (genE p).dest = s.dest := by
-  obtain ⟨hp, hb, hn, hc, hw⟩ := h
+  obtain ⟨hp, hself, hb, hn, hc, hw⟩ := h
   have hname : ∀ o ∈ p.objs, pname K p o.name = Spec.ident K.restricted p o.name := by
     intro o ho
     apply pname_eq_ident
@@ -689,13 +703,16 @@ theorem genY_eq_spec_partial (p : Pkg) (h : DomAll p) :
     intro m hm
     exact wmethod_eq_spec m (hw o ho' m (List.mem_filter.1 hm).1)
   · simp only [genE, genY, Spec.wrapper]
-    rw [typeImports_eq p hp, hfilw, hlit, hvals, htyps]
+    simp only [Spec.wrapper] at hself
+    rw [typeImports_eq p hp, hfilw, hlit, hvals, htyps, hself]
+    cases ((p.objs.filterMap fun o => (Spec.valForm K.restricted p o).map fun f => (⟨o.name, f⟩ : Entry)).isEmpty &&
+      ((p.objs.filter Spec.isType).map fun o => (⟨o.name, .typ (Spec.ident K.restricted p o.name)⟩ : Entry)).isEmpty) <;> rfl
 
 /-- non-vacuity of the domain -/
 def pkgPlain : Pkg :=
   { pkgMixed with objs := pkgMixed.objs ++ [⟨"X", true, .const (some (.str "6869"))⟩, ⟨"Y", true, .const (some (.bool true))⟩] }
 
 example : DomAll pkgPlain ∧ (genE pkgPlain).vals.length = 6 := by
-  refine ⟨⟨by decide, by decide, by decide, by decide, by decide⟩, by decide⟩
+  refine ⟨⟨by decide, by decide, by decide, by decide, by decide, by decide⟩, by decide⟩
 
 end YaegiVerif.Props.C18
